@@ -6,12 +6,15 @@
 #include <unordered_map>
 
 #include "place_detailed/incr_net_model.hpp"
-#include "tca.hpp"
+#include "detailed.hpp"
 
 using namespace vt;
 
-// aux: 0 = geometric case, 1 = incremental-model graph (aux2 = subset mask)
+// aux: 0 = geometric case, 1 = incremental-model graph (aux2 = subset mask), 2 = DetailedPlacer pass graph (value() vs from-scratch)
 static void enumerateAll(bool th, const std::function<void(const Spec &)> &f) {
+  vd::enumerateDetailed(th, vd::M_C09, [&](const Spec &s) {
+    if (s.aux == 2) f(s);
+  });
   // (a) cell A: every orientation, raw size, pin offset; partner cell B from a menu
   std::vector<CellSpec> partners;
   {
@@ -80,6 +83,11 @@ static vf::Verdicts eval(const Spec &s, vf::Ctx &ctx, bool th) {
   auto fail = [&](const std::string &cls, const std::string &msg) {
     if (seen.insert(cls).second) out.push_back({cls, msg + " | " + describe(s)});
   };
+  if (s.aux == 2) {
+    vd::Sink sink;
+    vd::evalPasses(s, ctx, vd::M_C09, sink, th ? 3 : 2, th);
+    return sink.out;
+  }
   Circuit c = build(s);
   if (s.aux == 0) {
     long long ref = refHpwl(c);
@@ -180,7 +188,7 @@ int main(int argc, char **argv) {
       "bounding box (no table of flipped orientations), also checked per pin and for placedWidth/Height. (b) breadth-first search over updateCellPos(c,p), p in "
       "{-3,0,1,2,7}, depth 3(4), on the real IncrNetModel (x and y topology) built over EVERY non-empty subset of the cells of small circuits (2..3(4) cells, three "
       "orientation variants incl. a fixed cell, net menu with repeated cells / single pins / weights); states deduplicated on the position vector; value() compared with "
-      "the from-scratch oracle in every state and with the value reached by other histories";
+      "the from-scratch oracle in every state and with the value reached by other histories. (c) breadth-first search over the optimiser passes of DetailedPlacer (runSwaps/runInserts/runShifts/runReordering, window menu, depth 2(3)) on small legalized circuits: DetailedPlacer::value() equals the from-scratch wirelength of the exported placement and check() passes in every state";
   c.bounds = th ? "n<=4, depth 4" : "n<=3, depth 3";
   c.assumptions = {"IncrNetModel is copied to branch; every new state is re-derived by replaying its update history on a fresh model"};
   c.enumerate = [=](const std::function<void(const Spec &)> &f) { enumerateAll(th, f); };
